@@ -1312,6 +1312,8 @@ class Translator:
             return a0
         if last in ("zeros", "ones") and self.hooks.get("concrete_zeros"):
             shp = kwargs.get("shape", a0)
+            if (is_sym(shp) and shp.is_Integer) or (isinstance(shp, int) and not isinstance(shp, bool)):
+                shp = [shp]   # np.ones(n): a vector of length n
             if isinstance(shp, (list, tuple)) and all((is_sym(x) and x.is_Integer) or isinstance(x, int) for x in shp):
                 out = np.empty(tuple(int(x) for x in shp), dtype=object)
                 out.fill(sp.Integer(0 if last == "zeros" else 1))
